@@ -218,7 +218,7 @@ impl Vm {
 
     let repl_path = self.root_dir.join(PathBuf::from(REPL_MODULE));
 
-    let main_module = self.module(SELF, "repl");
+    let main_module = self.package_module(SELF, "repl");
 
     loop {
       let mut buffer = String::new();
@@ -271,7 +271,7 @@ impl Vm {
         // pop the temp roots
         self.pop_roots(2);
 
-        let main_module = self.module(SELF, &managed_path);
+        let main_module = self.package_module(SELF, &managed_path);
 
         match self.interpret(false, main_module, &source, file_id) {
           ExecutionResult::Ok(_) => self.internal_error("Shouldn't exit vm with ok result"),
